@@ -23,7 +23,7 @@ use sha2::{Digest, Sha256, Sha512};
 use vcore::{catch, hash64, vensure, vensure_eq, vfail, CaseResult, Ctx, Fail, Obs};
 
 use zcash_address::unified::{self, Container as _, Encoding as _, Typecode};
-use zcash_client_backend::scanning::ScanningKeys;
+use zcash_client_backend::scanning::{ScanningKeyOps as _, ScanningKeys};
 use zcash_keys::address::{Address, UnifiedAddress};
 use zcash_keys::encoding::{self as enc, AddressCodec, Bech32DecodeError};
 use zcash_keys::keys::transparent::gap_limits::generate_address_list;
@@ -122,6 +122,15 @@ fn net_of(i: usize) -> AnyNet {
             nu6_2: h,
             nu6_3: h,
         }),
+    }
+}
+
+/// Stable name of a panic location: path inside /repo, or `<crate>-<version>/src/...` for a dependency.
+fn site(p: &str) -> String {
+    let v = vcore::panic_site(p);
+    match v.find("/registry/src/") {
+        Some(i) => v[i + "/registry/src/".len()..].splitn(2, '/').nth(1).unwrap_or("").to_string(),
+        None => v,
     }
 }
 
@@ -422,6 +431,8 @@ struct RefKeys {
     dfvk: DiversifiableFullViewingKey,
     osk: orchard::keys::SpendingKey,
     ofvk: orchard::keys::FullViewingKey,
+    /// ofvk.to_ivk(External), cached (Sinsemilla commitment)
+    oivk_ext: orchard::keys::IncomingViewingKey,
     /// m/44'/coin'/account'
     t_acct: XPrv,
     /// first four bytes of HASH160(parent public key) (BIP 32 serialization)
@@ -455,7 +466,8 @@ fn ref_keys(ks: &KeySpec) -> Result<RefKeys, Fail> {
     let t_acct = parent.child(ks.account | h).ok_or_else(|| skip("bip32 account"))?;
     let mut t_parent_fp = [0u8; 4];
     t_parent_fp.copy_from_slice(&hash160(&parent.pubkey())[..4]);
-    Ok(RefKeys { seed, net_i, account: ks.account, extsk, dfvk, osk, ofvk, t_acct, t_parent_fp })
+    let oivk_ext = ofvk.to_ivk(Scope::External);
+    Ok(RefKeys { seed, net_i, account: ks.account, extsk, dfvk, osk, ofvk, oivk_ext, t_acct, t_parent_fp })
 }
 
 impl RefKeys {
@@ -632,7 +644,7 @@ fn expect_at(rk: &RefKeys, comp: Comp, req: ReqSpec, j: DiversifierIndex) -> Res
         persistent = true;
     }
     mismatch |= ro != Rq::Omit && !comp.o;
-    let o = if ro != Rq::Omit && comp.o { Some(rk.ofvk.address_at(j, Scope::External)) } else { None };
+    let o = if ro != Rq::Omit && comp.o { Some(rk.oivk_ext.address_at(j)) } else { None };
     // Sapling: about half of the indices are valid
     let s_at = rk.dfvk.address(j);
     if rs == Rq::Require && !comp.s {
@@ -909,7 +921,7 @@ fn check_commutation(ctx: &Ctx, c: &CommCase) -> CaseResult {
         let def_f = catch(|| ufvk.default_address(request)).map_err(|p| Fail::new("default-address-panic", p))?;
         vensure!(same_result(&def_f, &def_i), "find-address-levels-differ", "{what}: ufvk.default_address = {def_f:?}, uivk = {def_i:?}");
     }
-    if let (Some(usk), Some((jx, exx))) = (&sut.usk, &rf0.found) {
+    if let (Some(usk), Some((jx, exx)), true) = (&sut.usk, &rf0.found, def_i.is_ok()) {
         if c.comp == (Comp { t: true, s: true, o: true }) {
             // test-dependencies helper; unwraps internally, so only called where an address exists
             let (ua, jd) = catch(|| usk.default_address(request)).map_err(|p| Fail::new("default-address-panic", format!("usk.default_address panicked although index {jx:?} is valid: {p}")))?;
@@ -1025,7 +1037,7 @@ fn addr_results(k: &Uivk, js: &[DiversifierIndex], request: UAR) -> Result<Vec<S
     Ok(v)
 }
 
-fn check_encodings(c: &EncCase) -> CaseResult {
+fn check_encodings(ctx: &Ctx, c: &EncCase) -> CaseResult {
     let rk = ref_keys(&c.ks)?;
     let sut = build_sut(&c.ks, &rk)?;
     let ni = rk.net_i;
@@ -1074,11 +1086,19 @@ fn check_encodings(c: &EncCase) -> CaseResult {
                 let p = 4 + (*pos as usize) % (w.len() - 4);
                 w[p] ^= *x;
             }
-            if let Ok(k) = catch(|| Usk::from_bytes(Era::Orchard, &w)).map_err(|p| Fail::new("usk-from-bytes-panic", format!("corrupted encoding {}: {p}", hx(&w))))? {
-                vensure!(k.to_bytes(Era::Orchard) == w, "usk-corrupted-not-canonical", "from_bytes accepted {} but re-encodes to {}", hx(&w), hx(&k.to_bytes(Era::Orchard)));
-                labels.push("usk:corrupted-accepted");
-            } else {
-                labels.push("usk:corrupted-rejected");
+            match catch(|| Usk::from_bytes(Era::Orchard, &w)) {
+                Ok(Ok(k)) => {
+                    vensure!(k.to_bytes(Era::Orchard) == w, "usk-corrupted-not-canonical", "from_bytes accepted {} but re-encodes to {}", hx(&w), hx(&k.to_bytes(Era::Orchard)));
+                    labels.push("usk:corrupted-accepted");
+                }
+                Ok(Err(_)) => labels.push("usk:corrupted-rejected"),
+                Err(p) => {
+                    let sig = format!("usk-from-bytes-panic:{}", site(&p));
+                    if !ctx.known_hit(&sig) {
+                        vfail!(sig, "UnifiedSpendingKey::from_bytes panicked on the corrupted encoding {} (flips {:?}): {p}", hx(&w), c.flips);
+                    }
+                    labels.push("known-finding-stepped-over");
+                }
             }
         }
         labels.push("usk");
@@ -1149,8 +1169,31 @@ fn check_encodings(c: &EncCase) -> CaseResult {
         .map_err(|p| Fail::new("uivk-decode-panic", p))?
         .map_err(|e| Fail::new("uivk-roundtrip-rejected", format!("decode(encode(uivk)) on {:?}: {e}", NET_TYPES[ni])))?;
     vensure!(back_i.encode(&net) == s_ivk, "uivk-roundtrip-reencode", "UIVK re-encoding differs");
-    vensure!(back_i == uivk, "uivk-roundtrip-components", "decoded UIVK != original");
-    vensure!(ufvk.subsumes_uivk(&back_i), "uivk-roundtrip-components", "UFVK does not subsume its decoded UIVK");
+    vensure!(
+        back_i.sapling().as_ref().map(|k| k.to_bytes()) == uivk.sapling().as_ref().map(|k| k.to_bytes())
+            && back_i.orchard().as_ref().map(|k| k.to_bytes()) == uivk.orchard().as_ref().map(|k| k.to_bytes())
+            && back_i.transparent().as_ref().map(|k| k.serialize()) == uivk.transparent().as_ref().map(|k| k.serialize()),
+        "uivk-roundtrip-components",
+        "decoded UIVK has other items"
+    );
+    {
+        // a decoded copy of a key is the same key: equal, and subsumed by the UFVK it came from
+        let eq = back_i == uivk;
+        let sub = ufvk.subsumes_uivk(&back_i);
+        if !(eq && sub) {
+            let strip = |k: &Uivk| Uivk::new(None, k.sapling().clone(), k.orchard().clone());
+            if comp.t && strip(&back_i) == strip(&uivk) && subset_ufvk(&sut, Comp { t: false, ..comp })?.subsumes_uivk(&strip(&back_i)) {
+                // only the transparent item "differs", although its bytes are identical (checked above)
+                let sig = "uivk-decoded-transparent-item-not-equal";
+                if !ctx.known_hit(sig) {
+                    vfail!(sig, "decode(encode(uivk)) == uivk: {eq}; ufvk.subsumes_uivk(decoded): {sub}; the items are byte-identical and the keys are equal once the transparent item is removed ({:?})", c.ks);
+                }
+                labels.push("known-finding-stepped-over");
+            } else {
+                vfail!("uivk-roundtrip-equality", "decode(encode(uivk)) == uivk: {eq}; ufvk.subsumes_uivk(decoded): {sub} ({comp:?})");
+            }
+        }
+    }
     let got_addrs = addr_results(&back_i, &js, request)?;
     vensure!(got_addrs == want_addrs, "uivk-roundtrip-addresses", "decoded UIVK derives other addresses: {got_addrs:?} vs {want_addrs:?}");
     for o in &others {
@@ -1193,7 +1236,8 @@ fn check_encodings(c: &EncCase) -> CaseResult {
         vensure!(s2 == s, "uivk-unknown-items-not-preserved", "UIVK with unknown typecodes {:?}: encode(decode(s)) != s", unk.iter().map(|u| u.0).collect::<Vec<_>>());
         let got_addrs = addr_results(&k, &js, request)?;
         vensure!(got_addrs == want_addrs, "uivk-roundtrip-addresses", "UIVK with unknown items derives other addresses");
-        vensure!(k.subsumes(&uivk) && !uivk.subsumes(&k) && k != uivk, "uivk-unknown-items-subsume", "subsumes/eq ignore unknown items");
+        // (compared with the decoded copy: both sides then carry the same BIP 32 metadata)
+        vensure!(k.subsumes(&back_i) && !back_i.subsumes(&k) && k != back_i, "uivk-unknown-items-subsume", "subsumes/eq ignore unknown items");
         labels.push("with-unknown-items");
     }
 
@@ -1229,6 +1273,26 @@ fn check_encodings(c: &EncCase) -> CaseResult {
             match enc::decode_extended_spending_key(HRP_EXTSK[*o], &s) {
                 Err(Bech32DecodeError::HrpMismatch { expected, actual }) => vensure!(expected == HRP_EXTSK[*o] && actual == HRP_EXTSK[ni], "sapling-hrp-mismatch-fields", "HrpMismatch {{ {expected}, {actual} }}"),
                 r => vfail!("extsk-wrong-network-accepted", "extsk of {:?} decoded for {:?}: {r:?}", NET_TYPES[ni], NET_TYPES[*o]),
+            }
+        }
+
+        // a corrupted key inside a well-formed Bech32 string: an error or a canonical key, never a panic
+        if !c.flips.is_empty() {
+            let mut w = rk.extsk.to_bytes();
+            for (pos, x) in &c.flips {
+                w[*pos as usize % 169] ^= *x;
+            }
+            let s = bech32::encode::<bech32::Bech32>(bech32::Hrp::parse_unchecked(HRP_EXTSK[ni]), &w).map_err(|e| skip(&format!("{e}")))?;
+            match catch(|| enc::decode_extended_spending_key(HRP_EXTSK[ni], &s)) {
+                Ok(Ok(k)) => vensure!(k.to_bytes() == w, "extsk-corrupted-not-canonical", "decode accepted the key bytes {} but holds {}", hx(&w), hx(&k.to_bytes())),
+                Ok(Err(_)) => {}
+                Err(p) => {
+                    let sig = format!("extsk-decode-panic:{}", site(&p));
+                    if !ctx.known_hit(&sig) {
+                        vfail!(sig, "decode_extended_spending_key panicked on key bytes {} (flips {:?}): {p}", hx(&w), c.flips);
+                    }
+                    labels.push("known-finding-stepped-over");
+                }
             }
         }
 
@@ -1317,7 +1381,14 @@ fn check_encodings(c: &EncCase) -> CaseResult {
             vensure!(e1.derive_address(ci).ok() == Some(want) && e2.derive_address(ci).ok() == Some(want), "account-pubkey-roundtrip-addresses", "external address {idx} from the (decoded) AccountPubKey differs from BIP 44");
             let es: [u8; 65] = e1.serialize().try_into().map_err(|_| Fail::new("external-ivk-length", "ExternalIvk::serialize is not 65 bytes".to_string()))?;
             let e3 = ExternalIvk::deserialize(&es).map_err(|e| Fail::new("external-ivk-roundtrip", format!("{e:?}")))?;
-            vensure!(e3.serialize() == es && e3 == e1 && e3.derive_address(ci).ok() == Some(want), "external-ivk-roundtrip", "ExternalIvk round trip changes the key");
+            vensure!(e3.serialize() == es && e3.derive_address(ci).ok() == Some(want), "external-ivk-roundtrip", "ExternalIvk round trip changes the key");
+            if e3 != e1 {
+                // same root cause as the UIVK equality finding: derived PartialEq over BIP 32 metadata
+                let sig = "uivk-decoded-transparent-item-not-equal";
+                if !ctx.known_hit(sig) {
+                    vfail!(sig, "ExternalIvk::deserialize(k.serialize()) != k although both serialize identically ({:?})", c.ks);
+                }
+            }
             let i1 = pk.derive_internal_ivk().map_err(|e| skip(&format!("{e:?}")))?;
             let is: [u8; 65] = i1.serialize().try_into().map_err(|_| Fail::new("internal-ivk-length", "InternalIvk::serialize is not 65 bytes".to_string()))?;
             let i2 = InternalIvk::deserialize(&is).map_err(|e| Fail::new("internal-ivk-roundtrip", format!("{e:?}")))?;
@@ -1366,7 +1437,7 @@ fn set_of(j: Option<DiversifierIndex>) -> BTreeSet<DiversifierIndex> {
     j.into_iter().collect()
 }
 
-fn check_recognition(c: &RecogCase) -> CaseResult {
+fn check_recognition(ctx: &Ctx, c: &RecogCase) -> CaseResult {
     let rk = ref_keys(&c.ks)?;
     let sut = build_sut(&c.ks, &rk)?;
     let sks = if c.stranger_same_seed { c.ks.other_account() } else { c.ks.other_seed() };
@@ -1405,7 +1476,7 @@ fn check_recognition(c: &RecogCase) -> CaseResult {
                 let mut j2 = jr;
                 if j2.increment().is_ok() {
                     if let Ok((ua2, jr2)) = uivk.find_address(j2, request) {
-                        if let Some(mixed) = UnifiedAddress::from_receivers(ua.orchard().copied(), ua2.sapling().copied(), None) {
+                        if let (true, Some(mixed)) = (ua2.sapling().is_some(), UnifiedAddress::from_receivers(ua.orchard().copied(), ua2.sapling().copied(), None)) {
                             let got = uivk.decrypt_diversifiers(&mixed);
                             let want: BTreeSet<_> = [jr, jr2].into_iter().collect();
                             vensure!(got == want, "decrypt-diversifiers-mixed", "mixed-index address: {got:?}, want {want:?}");
@@ -1432,7 +1503,13 @@ fn check_recognition(c: &RecogCase) -> CaseResult {
         // internal (change) address: only the full viewing key recognises it, as Internal
         let (ji, chg) = dfvk.change_address();
         let r = catch(|| dfvk.decrypt_diversifier(&chg)).map_err(|p| Fail::new("decrypt-diversifier-panic", p))?;
-        vensure!(r == Some((ji, Scope::Internal)), "sapling-decrypt-diversifier-internal", "dfvk.decrypt_diversifier(change address at {ji:?}) = {r:?}, want Some(({ji:?}, Internal))");
+        if r != Some((ji, Scope::Internal)) {
+            let sig = if r.is_none() { "sapling-dfvk-decrypt-diversifier-misses-internal" } else { "sapling-decrypt-diversifier-internal" };
+            if !ctx.known_hit(sig) {
+                vfail!(sig, "dfvk.decrypt_diversifier(change address at {ji:?}) = {r:?}, want Some(({ji:?}, Internal)) ({:?})", c.ks);
+            }
+            labels.push("known-finding-stepped-over");
+        }
         vensure!(ext_ivk.decrypt_diversifier(&chg).is_none(), "sapling-ivk-recognises-internal", "the external Sapling ivk recognises the change address");
         vensure!(sdfvk.decrypt_diversifier(&chg).is_none(), "sapling-decrypt-diversifier-foreign", "a foreign key recognises a Sapling change address");
         let only = UnifiedAddress::from_receivers(None, Some(chg), None).ok_or_else(|| skip("from_receivers"))?;
@@ -1704,4 +1781,334 @@ fn check_notes(c: &NoteCase) -> CaseResult {
         .count("refusals-by-unrelated-key", refused))
 }
 
-// @@END@@
+// ---------------------------------------------------------------------------------------------
+// Sub-check: BIP 44 transparent derivation (external / internal / ephemeral / custom scopes) and
+// the address lists built from it
+// ---------------------------------------------------------------------------------------------
+
+#[derive(Clone, Debug)]
+struct TCase {
+    ks: KeySpec,
+    /// 0 external, 1 internal, 2 ephemeral, 3 custom
+    scope: u8,
+    custom_scope: u32,
+    start: u32,
+    len: u8,
+    req: ReqSpec,
+    comp: Comp,
+    require_key: bool,
+    pass_ufvk: bool,
+}
+
+fn arb_tcase() -> impl Strategy<Value = TCase> {
+    (
+        arb_keyspec(true),
+        prop_oneof![3 => Just(0u8), 2 => Just(1u8), 2 => Just(2u8), 1 => Just(3u8)],
+        prop_oneof![Just(3u32), Just(0x7fff_ffffu32), 3u32..0x8000_0000],
+        prop_oneof![
+            3 => Just(0u32),
+            2 => 0u32..100,
+            2 => (0u32..6).prop_map(|k| 0x7fff_ffff - k),
+            2 => 0u32..0x8000_0000,
+        ],
+        prop_oneof![1 => Just(0u8), 4 => 1u8..6],
+        arb_req(),
+        arb_comp(),
+        any::<bool>(),
+        prop_oneof![5 => Just(true), 1 => Just(false)],
+    )
+        .prop_map(|(ks, scope, custom_scope, start, len, req, comp, require_key, pass_ufvk)| TCase { ks, scope, custom_scope, start, len, req, comp, require_key, pass_ufvk })
+}
+
+fn check_transparent(ctx: &Ctx, c: &TCase) -> CaseResult {
+    let rk = ref_keys(&c.ks)?;
+    let sut = build_sut(&c.ks, &rk)?;
+    let usk = sut.usk.as_ref().ok_or_else(|| skip("usk for a 32/64-byte seed"))?;
+    let scope_n: u32 = if c.scope < 3 { c.scope as u32 } else { c.custom_scope };
+    let scope = match c.scope {
+        0 => TransparentKeyScope::EXTERNAL,
+        1 => TransparentKeyScope::INTERNAL,
+        2 => TransparentKeyScope::EPHEMERAL,
+        _ => TransparentKeyScope::custom(c.custom_scope).ok_or_else(|| skip("custom scope"))?,
+    };
+    vensure!(TransparentKeyScope::from(Scope::External) == TransparentKeyScope::EXTERNAL && TransparentKeyScope::from(Scope::Internal) == TransparentKeyScope::INTERNAL, "scope-conversion", "zip32::Scope -> TransparentKeyScope");
+    let max = NonHardenedChildIndex::MAX.index();
+    let start = c.start.min(max);
+    let end = start.saturating_add(c.len as u32).min(max); // end-exclusive
+    let n = end - start;
+    let sk = usk.transparent();
+    let pk = sk.to_account_pubkey();
+    let mut known = false;
+
+    // --- per-index derivation: private chain, public chain and the change-level keys agree with BIP 32
+    let mut sample = vec![start, max];
+    if n > 0 {
+        sample.push(end - 1);
+    }
+    for idx in sample {
+        let ci = NonHardenedChildIndex::from_index(idx).ok_or_else(|| skip("index"))?;
+        let r = rk.t_child(scope_n, idx)?;
+        let got_sk = catch(|| sk.derive_secret_key(scope, ci)).map_err(|p| Fail::new("transparent-derive-panic", p))?;
+        vensure!(got_sk.as_ref().ok().map(|k| k.secret_bytes()) == Some(r.k.secret_bytes()), "transparent-secret-key-differs", "derive_secret_key({scope:?}, {idx}) differs from m/44'/{}'/{}'/{scope_n}/{idx}", COIN[rk.net_i], c.ks.account);
+        let got_pk = catch(|| pk.derive_address_pubkey(scope, ci)).map_err(|p| Fail::new("transparent-derive-panic", p))?;
+        vensure!(got_pk.as_ref().ok().map(|k| k.serialize()) == Some(r.pubkey()), "transparent-pubkey-differs", "derive_address_pubkey({scope:?}, {idx}) differs from the BIP 32 public key");
+        let want = TransparentAddress::PublicKeyHash(hash160(&r.pubkey()));
+        match c.scope {
+            0 => {
+                vensure!(sk.derive_external_secret_key(ci).ok().map(|k| k.secret_bytes()) == Some(r.k.secret_bytes()), "transparent-secret-key-differs", "derive_external_secret_key({idx})");
+                let a = pk.derive_external_ivk().and_then(|k| k.derive_address(ci));
+                vensure!(a.as_ref().ok() == Some(&want), "transparent-address-differs", "external address {idx}: {a:?}, BIP 44 reference {want:?}");
+            }
+            1 => {
+                vensure!(sk.derive_internal_secret_key(ci).ok().map(|k| k.secret_bytes()) == Some(r.k.secret_bytes()), "transparent-secret-key-differs", "derive_internal_secret_key({idx})");
+                let a = pk.derive_internal_ivk().and_then(|k| k.derive_address(ci));
+                vensure!(a.as_ref().ok() == Some(&want), "transparent-address-differs", "internal address {idx}: {a:?}, BIP 44 reference {want:?}");
+            }
+            2 => {
+                let a = pk.derive_ephemeral_ivk().and_then(|k| k.derive_ephemeral_address(ci));
+                vensure!(a.as_ref().ok() == Some(&want), "transparent-address-differs", "ephemeral address {idx}: {a:?}, reference {want:?}");
+            }
+            _ => {}
+        }
+    }
+
+    // --- the end-exclusive child index range
+    let lo = NonHardenedChildIndex::from_index(start).unwrap();
+    let hi = NonHardenedChildIndex::from_index(end).unwrap();
+    let got: Vec<u32> = NonHardenedChildRange::from(lo..hi).into_iter().map(|i| i.index()).collect();
+    let want: Vec<u32> = (start..end).collect();
+    let mut range_defect = false;
+    if got != want {
+        let sig = if n == 0 && got == vec![start] { "child-range-empty-yields-start" } else { "child-range-wrong" };
+        if !ctx.known_hit(sig) {
+            vfail!(sig, "NonHardenedChildRange({start}..{end}) iterates {got:?}, an end-exclusive range is {want:?}");
+        }
+        known = true;
+        range_defect = true;
+    }
+
+    // --- generate_address_list
+    let comp = {
+        let mut k = c.comp;
+        if !k.s && !k.o {
+            k.s = true;
+        }
+        k
+    };
+    let ufvk = subset_ufvk(&sut, comp)?;
+    let uivk = ufvk.to_unified_incoming_viewing_key();
+    let mut list_len = 0u64;
+    if let Some(request) = build_request(c.req)? {
+        let r = catch(|| generate_address_list(&uivk, c.pass_ufvk.then_some(&ufvk), scope, request, lo..hi, c.require_key))
+            .map_err(|p| Fail::new("address-list-panic", format!("generate_address_list panicked: {p} ({c:?})")))?;
+        let key_available = c.pass_ufvk && comp.t;
+        if !key_available {
+            // "Returns an empty list if the account lacks a transparent key and require_key is false.
+            //  Returns an error if the key is required but unavailable"
+            if !c.require_key {
+                vensure!(matches!(&r, Ok(v) if v.is_empty()), "address-list-without-key", "no transparent key, require_key=false: {r:?}");
+            } else if c.scope == 1 || c.scope == 2 {
+                vensure!(matches!(&r, Err(AGE::KeyNotAvailable(Typecode::P2pkh))), "address-list-without-key", "no transparent key, require_key=true, {scope:?}: {r:?}");
+            }
+            // external scope with require_key: the rustdoc and the code disagree on Ok([]) vs Err; not asserted
+        } else if c.scope == 3 {
+            if n > 0 {
+                vensure!(matches!(&r, Err(AGE::UnsupportedTransparentKeyScope(s)) if *s == scope), "address-list-custom-scope", "custom scope {scope:?}: {r:?}");
+            }
+        } else {
+            // what address(idx, request) says for every index of the range
+            let mut per_idx = vec![];
+            for idx in start..end {
+                per_idx.push((idx, catch(|| uivk.address(DiversifierIndex::from(idx), request)).map_err(|p| Fail::new("address-panic", p))?));
+            }
+            let hard_error = c.scope == 0 && per_idx.iter().any(|(_, a)| matches!(a, Err(e) if !matches!(e, AGE::ShieldedReceiverRequired)));
+            match &r {
+                Err(e) => vensure!(hard_error, "address-list-error", "generate_address_list({scope:?}, {start}..{end}) = {e:?} although every address can be generated"),
+                Ok(list) if !range_defect => {
+                    vensure!(!hard_error, "address-list-ignores-error", "generate_address_list succeeded although address() fails with a non-fallback error in the range");
+                    vensure!(list.len() as u32 == n, "address-list-length", "generate_address_list({scope:?}, {start}..{end}) returned {} entries", list.len());
+                    for (k, (addr, taddr, ci)) in list.iter().enumerate() {
+                        let idx = start + k as u32;
+                        vensure!(ci.index() == idx, "address-list-index", "entry {k} has index {}, want {idx}", ci.index());
+                        let want = TransparentAddress::PublicKeyHash(rk.t_addr(scope_n, idx)?);
+                        vensure!(*taddr == want, "address-list-transparent-address", "{scope:?} entry {idx}: transparent address {taddr:?}, BIP 44 m/44'/{}'/{}'/{scope_n}/{idx} = {want:?}", COIN[rk.net_i], c.ks.account);
+                        match (c.scope, &per_idx[k].1, addr) {
+                            (0, Ok(ua), Address::Unified(got)) => {
+                                vensure!(got == ua, "address-list-unified-address", "external entry {idx}: unified address differs from uivk.address({idx})");
+                                vensure!(got.transparent().is_none() || got.transparent() == Some(&want), "address-list-unified-address", "external entry {idx}: UA transparent receiver is not child {idx}");
+                            }
+                            (0, Err(_), Address::Transparent(a)) | (1, _, Address::Transparent(a)) | (2, _, Address::Transparent(a)) => {
+                                vensure!(*a == want, "address-list-transparent-address", "{scope:?} entry {idx}: wallet address {a:?}, want {want:?}");
+                            }
+                            (_, _, other) => vfail!("address-list-address-kind", "{scope:?} entry {idx}: unexpected wallet address {other:?} (uivk.address = {:?})", per_idx[k].1),
+                        }
+                    }
+                    list_len = list.len() as u64;
+                }
+                Ok(_) => {}
+            }
+        }
+    }
+
+    let mut key = rk.seed.clone();
+    key.extend_from_slice(&c.ks.account.to_le_bytes());
+    key.push(rk.net_i as u8);
+    key.extend_from_slice(&scope_n.to_le_bytes());
+    key.extend_from_slice(&start.to_le_bytes());
+    key.extend_from_slice(&end.to_le_bytes());
+    key.extend_from_slice(format!("{comp:?}{:?}{}{}", c.req, c.require_key, c.pass_ufvk).as_bytes());
+    Ok(Obs::new(c.scope != 0 || !(c.pass_ufvk && comp.t) || n == 0 || end == max)
+        .key(hash64(&key))
+        .label(NET_LABEL[rk.net_i])
+        .label(match c.scope {
+            0 => "scope:external",
+            1 => "scope:internal",
+            2 => "scope:ephemeral",
+            _ => "scope:custom",
+        })
+        .label_if(n == 0, "range:empty")
+        .label_if(end == max, "range:ends-at-max-index")
+        .label_if(!(c.pass_ufvk && comp.t), "no-transparent-key")
+        .label_if(known, "known-finding-stepped-over")
+        .count("addresses-listed", list_len))
+}
+
+// ---------------------------------------------------------------------------------------------
+// Fixed regression cases (boundary shapes worth re-running forever)
+// ---------------------------------------------------------------------------------------------
+
+fn fixed_comm_cases() -> Vec<CommCase> {
+    let mut v = vec![];
+    let full = Comp { t: true, s: true, o: true };
+    let s_only = Comp { t: false, s: true, o: false };
+    let o_only = Comp { t: false, s: false, o: true };
+    let ts = Comp { t: true, s: true, o: false };
+    let seeds = [(0u8, 32u16), (1, 32), (0, 64), (1, 64), (2, 32), (1, 252)];
+    let reqs = [
+        ReqSpec::AllAvailable,
+        ReqSpec::Custom(Rq::Allow, Rq::Allow, Rq::Allow),
+        ReqSpec::Custom(Rq::Allow, Rq::Allow, Rq::Omit),
+        ReqSpec::Custom(Rq::Require, Rq::Omit, Rq::Omit),
+        ReqSpec::Custom(Rq::Omit, Rq::Require, Rq::Require),
+        ReqSpec::Custom(Rq::Omit, Rq::Allow, Rq::Require),
+        ReqSpec::Custom(Rq::Require, Rq::Require, Rq::Require),
+        ReqSpec::Custom(Rq::Omit, Rq::Omit, Rq::Allow),
+    ];
+    let js = [
+        JSpec::Zero,
+        JSpec::One,
+        JSpec::FirstSaplingInvalidFrom(0),
+        JSpec::Below31(0),
+        JSpec::From31(0),
+        JSpec::U32Max,
+        JSpec::Max88Minus(0),
+        JSpec::Max88Minus(1),
+    ];
+    for (si, (kind, len)) in seeds.iter().enumerate() {
+        for (ai, account) in [0u32, 0x7fff_ffff].iter().enumerate() {
+            if ai == 1 && si % 2 == 1 {
+                continue;
+            }
+            for comp in [full, s_only, o_only, ts] {
+                for req in reqs {
+                    for j in js.iter() {
+                        v.push(CommCase {
+                            ks: KeySpec { seed_kind: *kind, seed_len: *len, seed_fill: 0xC11 + si as u64, account: *account, net: ((si + ai) % 3) as u8 },
+                            comp,
+                            req,
+                            j: j.clone(),
+                        });
+                    }
+                }
+            }
+        }
+    }
+    v
+}
+
+fn main() {
+    let ctx = Ctx::from_args("C11", "exploration");
+    ctx.set_rule(
+        "Cases = (seed of 32..252 bytes incl. all-zero/all-0xFF, ZIP 32 account in {0,1,2^31-1,random}, network main/test/regtest, \
+         key item subset, request over {Require,Allow,Omit}^3 + AllAvailableKeys built through the public constructors, diversifier \
+         index from {0,1,first Sapling-invalid/valid, 2^31 boundary, 2^32 boundary, 2^88-1-k, random 11 bytes}). The reference is \
+         assembled from sapling-crypto / orchard ZIP 32 derivation and an own BIP 32 implementation. Non-trivial = request and key \
+         items differ (requested-but-unsupported or allowed-but-not-derivable), or the index is Sapling-invalid, or (encodings) the \
+         key is a strict subset / carries unknown items, or (notes) internal scope / non-zero index, or (transparent) non-external \
+         scope / empty or saturated range / missing key; distinct = hash of (seed, account, network, items, request, index...).",
+    );
+    ctx.assume("sapling-crypto and orchard ZIP 32 derivation, address derivation and note encryption are the reference for the shielded pools (shared with the code under test); BLAKE2b/SHA-2/RIPEMD-160/secp256k1 group law are shared primitives; BIP 32/44 is re-implemented");
+    ctx.assume("UnifiedSpendingKey::from_seed returns Err for seed lengths other than 32 and 64 bytes (bip32 dependency); that explicit error is treated as 'no key', and such seeds are exercised through shielded-only viewing keys");
+    ctx.assume("Require for an item the key lacks: any of KeyNotAvailable / ReceiverTypeNotSupported / ShieldedReceiverRequired is accepted as the error variant (the code reports the last one); exactness is asserted on error-vs-success and on the index-related variants");
+    ctx.assume("seeds shorter than 32 bytes and requests without a shielded receiver via unsafe_custom are documented panics (preconditions)");
+    let tier = ctx.tier;
+
+    {
+        let cases = Arc::new(fixed_comm_cases());
+        let c2 = cases.clone();
+        let cx = ctx.clone();
+        ctx.run_enum("regression-grid", cases.len() as u64, true, move |i| check_commutation(&cx, &cases[i as usize]), move |i| format!("{:?}", c2[i as usize]));
+    }
+    {
+        let cx = ctx.clone();
+        ctx.run_prop(
+            "address-commutation",
+            || (arb_keyspec(false), arb_comp(), arb_req(), arb_jspec()).prop_map(|(ks, comp, req, j)| CommCase { ks, comp, req, j }),
+            tier.pick(8_000, 400_000),
+            move |c| check_commutation(&cx, c),
+        );
+    }
+    {
+        let cx = ctx.clone();
+        ctx.run_prop("encodings", arb_enc_case, tier.pick(3_000, 200_000), move |c| check_encodings(&cx, c));
+    }
+    let cx = ctx.clone();
+    ctx.run_prop(
+        "recognition",
+        || (arb_keyspec(false), arb_comp(), arb_req(), arb_jspec(), any::<bool>()).prop_map(|(ks, comp, req, j, stranger_same_seed)| RecogCase { ks, comp, req, j, stranger_same_seed }),
+        tier.pick(3_000, 200_000),
+        move |c| check_recognition(&cx, c),
+    );
+    ctx.run_prop(
+        "note-decryption",
+        || {
+            (
+                arb_keyspec(false),
+                prop_oneof![Just(Pool::Sapling), Just(Pool::Orchard), Just(Pool::Ironwood)],
+                any::<bool>(),
+                arb_jspec(),
+                prop_oneof![1 => Just(0u64), 1 => Just(1u64), 1 => Just(2_100_000_000_000_000u64), 1 => Just(u64::MAX), 4 => any::<u64>()],
+                any::<[u8; 32]>(),
+                0u8..3,
+                any::<bool>(),
+            )
+                .prop_map(|(ks, pool, internal, j, value, rand, memo_kind, with_ovk)| NoteCase { ks, pool, internal, j, value, rand, memo_kind, with_ovk })
+        },
+        tier.pick(3_000, 200_000),
+        check_notes,
+    );
+    {
+        let cx = ctx.clone();
+        ctx.run_prop("transparent-derivation", arb_tcase, tier.pick(3_000, 200_000), move |c| check_transparent(&cx, c));
+    }
+
+    // generator health
+    ctx.require_label_fraction("address-commutation", "request-differs-from-key", 0.25);
+    ctx.require_label_fraction("address-commutation", "j:sapling-invalid", 0.10);
+    ctx.require_label_fraction("address-commutation", "address:ok", 0.15);
+    ctx.require_label_fraction("address-commutation", "address:err", 0.15);
+    ctx.require_min_count("address-commutation", "err:sapling-invalid-index", 100);
+    ctx.require_min_count("address-commutation", "err:transparent-invalid-index", 50);
+    ctx.require_min_count("address-commutation", "err:no-shielded-receiver", 100);
+    ctx.require_min_count("address-commutation", "find:searched", 300);
+    ctx.require_min_count("address-commutation", "find:space-exhausted", 5);
+    ctx.require_min_count("address-commutation", "request-refused-by-constructor", 100);
+    ctx.require_min_count("encodings", "usk", 1000);
+    ctx.require_min_count("encodings", "with-unknown-items", 500);
+    ctx.require_min_count("encodings", "usk:wrong-era", 1000);
+    ctx.require_min_count("recognition", "ua:recognised", 500);
+    ctx.require_min_count("note-decryption", "pool:ironwood", 300);
+    ctx.require_min_count("note-decryption", "scope:internal", 500);
+    ctx.require_min_count("transparent-derivation", "range:empty", 100);
+    ctx.finish();
+}
